@@ -28,6 +28,9 @@ def plan(tier, seed):
         for batched in (False, True):
             jobs.append({"func": "roundtrip", "name": "rt/%s%s" % (ser, ".batched" if batched else ""),
                          "args": {"seed": seed * 1000 + i * 2 + int(batched), "n": n, "ser": ser, "batched": batched}})
+    for batched in (False, True):
+        jobs.append({"func": "roundtrip", "name": "rt/json-hex%s" % (".batched" if batched else ""),
+                     "args": {"seed": seed * 1000 + 20 + int(batched), "n": n // 2, "ser": "json-hex", "batched": batched}})
     jobs.append({"func": "cache_history", "name": "cache", "args": {"seed": seed * 1000 + 77, "n": 150 if tier == "quick" else 1500}})
     if tier != "quick":
         for k in range(8):
@@ -38,10 +41,24 @@ def plan(tier, seed):
 
 def make_serializer(name, batched):
     from autobahn.wamp import serializer as s
+    if name == "json-hex":
+        # the JSON serializer's other documented binary convention: "0x" + hex instead of NUL + base64
+        return s.JsonSerializer(batched=batched, use_binary_hex_encoding=True)
     cls = {"json": "JsonSerializer", "msgpack": "MsgPackSerializer", "cbor": "CBORSerializer", "ubjson": "UBJSONSerializer"}[name]
     if not hasattr(s, cls):
         raise HarnessError("serializer %s not available" % cls)
     return getattr(s, cls)(batched=batched)
+
+
+def has_0x_string(v):
+    """a text starting with '0x' *is* the binary convention of the hex-mode JSON serializer (as NUL is of the default mode): not generated there"""
+    if isinstance(v, str):
+        return v.startswith("0x")
+    if isinstance(v, (list, tuple)):
+        return any(has_0x_string(x) for x in v)
+    if isinstance(v, dict):
+        return any(has_0x_string(k) or has_0x_string(x) for k, x in v.items())
+    return False
 
 
 def rich(v, depth=0):
@@ -133,6 +150,9 @@ def roundtrip(col, seed, n, ser, batched):
 
     def body(batch):
         case = {"check": "rt", "ser": ser, "batched": batched, "batch": batch}
+        if ser == "json-hex" and any(has_0x_string(kw) for _, kw in batch):
+            col.count("json-hex/skipped-0x-text")
+            return
         check_batch(serializer, batch, case)
         for nm, kw in batch:
             seen_cls.add(nm)
